@@ -1108,6 +1108,23 @@ def c12(R, ctx):
         r2_ = (0x8001).to_bytes(2, "big") + (10).to_bytes(4, "big") + v2.to_bytes(4, "big")
         root = R.rng.choice(["R:-:0", "R:%d:0" % cc])
         crossed.append([(root, r1_), (R.rng.choice(["R:-:0", "R:%d:0" % cc]), r2_), (root, r1_)])
+    # a bounded memo (the translator reads its capacity k): the witness of C12_every_bounded_memo_refuted replayed on the
+    # implementation - k+1 different encrypted parameter classes, then the first again
+    kcap = cur["cache"].get("size") if cur["cache"].get("k") == "lru" else 0
+    if kcap is not None:
+        wit = []
+        for cc in tpm2b_first:
+            c_, _ = C.G.command(cc, nsessions=1, decrypt=True)
+            wit.append(("C", c_))
+        rsp2b = [cc for cc, tkey in cur["rsp_params"] if cur["types"][tkey]["fields"] and cur["types"][tkey]["fields"][0]["k"] == "plain"
+                 and "t" in cur["types"][tkey]["fields"][0]["t"] and cur["types"][cur["types"][tkey]["fields"][0]["t"]["t"]]["k"].startswith("tpm2b")]
+        for cc in rsp2b:
+            r_, _ = C.G.response(cc, enc=True, rc=0)
+            wit.append(("R:%d:1" % cc, r_))
+        need = max(int(kcap), 0) + 1
+        if len(wit) >= need:
+            crossed.append(wit[:need] + [wit[0]])
+        R.coverage["bounded_memo_witness"] = {"capacity": kcap, "classes_needed": need, "classes_available": len(wit)}
     reqs = []
     hist = []
     for items in crossed:
